@@ -259,6 +259,44 @@ func c19Tables(p *core.Program, r *core.Report) {
 			}
 			return true
 		})
+		if !step {
+			// closed form: time = BASE + seq*MILLIS_PER_DAY with seq counted up by one per day
+			counters := map[string]bool{}
+			ast.Inspect(fi.Decl.Body, func(m ast.Node) bool {
+				if inc, ok := m.(*ast.IncDecStmt); ok && inc.Tok == token.INC {
+					if id, ok := inc.X.(*ast.Ident); ok {
+						counters[id.Name] = true
+					}
+				}
+				return true
+			})
+			ast.Inspect(fi.Decl.Body, func(m ast.Node) bool {
+				as, ok := m.(*ast.AssignStmt)
+				if !ok || len(as.Lhs) != 1 || len(as.Rhs) != 1 || as.Tok != token.ASSIGN {
+					return true
+				}
+				f, ok := linearize(finfo, nil, as.Rhs[0], func(x ast.Expr) (string, bool) {
+					switch v := ast.Unparen(x).(type) {
+					case *ast.Ident:
+						if _, isVar := finfo.ObjectOf(v).(*types.Var); isVar {
+							return "v:" + v.Name, true
+						}
+					case *ast.SelectorExpr:
+						return "f:" + stripSpaces(types.ExprString(v)), true
+					}
+					return "", false
+				})
+				if !ok {
+					return true
+				}
+				for k, coef := range f {
+					if coef == 86400000 && strings.HasPrefix(k, "v:") && counters[strings.TrimPrefix(k, "v:")] {
+						step = true
+					}
+				}
+				return true
+			})
+		}
 		r.Check(step, "C19.tables", "util/dateutil.open day step", p.Pos(fi.Decl.Pos()), "consecutive days are one MILLIS_PER_DAY apart", "the day table is not built with a MILLIS_PER_DAY step")
 	}
 	// month lengths only together with the leap correction
